@@ -278,7 +278,7 @@ func TestIdentity(t *testing.T) {
 		case 2: // arbitrary wrap timings: start-up may refuse, but if it succeeds identity must hold
 			for i, n := range s.Nodes {
 				if n.Variant != 'N' && rapid.Bool().Draw(t, "wrap") {
-					plans[i] = graph.WrapPlan{Early: rapid.IntRange(0, 1).Draw(t, "e"), Before: rapid.SampledFrom([]int{0, 0, 1}).Draw(t, "b"), After: rapid.IntRange(0, 3).Draw(t, "a")}
+					plans[i] = graph.WrapPlan{Early: rapid.IntRange(0, 1).Draw(t, "e"), Before: rapid.SampledFrom([]int{0, 0, 1}).Draw(t, "b"), After: rapid.IntRange(0, 3).Draw(t, "a"), Inst: rapid.SampledFrom([]int{0, 0, 0, 1}).Draw(t, "inst")}
 				}
 			}
 		}
